@@ -190,36 +190,29 @@ Proof. exact (proj2 (proj2 sscanf_e0_witness)). Qed.
 Print Assumptions type_sscanf_total_before_c06b512_refuted.
 
 (* ---- termination of the OS-device printer ---- *)
-(* BEGIN osdev-loop (code as it is: `while (ostype)`, OSDEV_PRINT_WHILE = true).
-   Replaced by patches/verif-C11-after-osdev-fix.diff once patches/fix-C11-osdev-unknown-bit.diff is in /repo. *)
-(* REFUTED: for the word 4096 (XML osdev_type="4096") the loop state after one iteration equals the state
-   before, so the model runs out of fuel for every fuel value and the printer never returns unless
-   SHORT_NAMES is given. *)
-Theorem osdev_print_terminates_refuted :
+(* BEGIN osdev-loop (fixed code, patches/fix-C11-osdev-unknown-bit.diff: `if (ostype)` and one pass;
+   OSDEV_PRINT_WHILE = false) *)
+(* the printer returns for EVERY OS-device type word and every flag word; the only non-returning case left
+   is the assert() on a Bridge whose downstream type is not PCI (excluded at XML import since /repo 8cfd253) *)
+Theorem osdev_print_terminates :
+  forall o flags, (to_type o = HWLOC_OBJ_BRIDGE -> to_bdown o = HWLOC_OBJ_BRIDGE_PCI) ->
+  exists ps, type_snprintf_pieces o flags = PrOk ps.
+Proof. exact (fun o flags Hb => type_pieces_ok OSDEV_PRINT_WHILE o flags Hb (fun H => match Bool.diff_false_true H with end)). Qed.
+Print Assumptions osdev_print_terminates.
+(* on words made of known bits the fixed code prints what the old code printed *)
+Theorem osdev_fix_preserves_known_words :
+  forall o flags, N.ldiff (to_os o) osdev_known_mask = 0 ->
+  type_snprintf_pieces_gen true o flags = type_snprintf_pieces o flags.
+Proof. exact type_pieces_variants_agree. Qed.
+Print Assumptions osdev_fix_preserves_known_words.
+(* regression witness of the fixed defect: on the previous code (`while (ostype)`, variant true) the word
+   4096 (XML osdev_type="4096") repeats the loop state forever *)
+Theorem osdev_print_terminates_before_fix_refuted :
   UNKNOWN_BIT_WORD <= Strto.ULONG_MAX /\
   (forall longn c acc, osdev_pass longn (UNKNOWN_BIT_WORD, c, acc) = (UNKNOWN_BIT_WORD, c, acc)) /\
   (forall fuel longn c acc, osdev_while fuel longn (UNKNOWN_BIT_WORD, c, acc) = None) /\
   (forall flags, flag_set flags HWLOC_OBJ_SNPRINTF_FLAG_SHORT_NAMES = false ->
-     type_snprintf_pieces (mk HWLOC_OBJ_OS_DEVICE 0 0 0 0 0 UNKNOWN_BIT_WORD) flags = PrLoop).
+     type_snprintf_pieces_gen true (mk HWLOC_OBJ_OS_DEVICE 0 0 0 0 0 UNKNOWN_BIT_WORD) flags = PrLoop).
 Proof. exact osdev_loop_witness. Qed.
-Print Assumptions osdev_print_terminates_refuted.
-(* exactly that class: any bit outside names[] *)
-Theorem osdev_print_unknown_bit_never_returns :
-  forall os longn, N.ldiff os osdev_known_mask <> 0 -> osdev_normal_pieces OSDEV_PRINT_WHILE os longn = PrLoop.
-Proof. exact osdev_normal_unknown_loops. Qed.
-Print Assumptions osdev_print_unknown_bit_never_returns.
-(* PARTIAL: words made of known bits (or SHORT_NAMES); Bridges need downstream type PCI (assert) *)
-Theorem osdev_print_terminates_partial :
-  forall o flags,
-  (to_type o = HWLOC_OBJ_BRIDGE -> to_bdown o = HWLOC_OBJ_BRIDGE_PCI) ->
-  (to_type o = HWLOC_OBJ_OS_DEVICE ->
-     flag_set flags HWLOC_OBJ_SNPRINTF_FLAG_SHORT_NAMES = true \/ N.ldiff (to_os o) osdev_known_mask = 0) ->
-  exists ps, type_snprintf_pieces o flags = PrOk ps.
-Proof. exact (fun o flags Hb Ho => type_pieces_ok OSDEV_PRINT_WHILE o flags Hb (fun _ => Ho)). Qed.
-Print Assumptions osdev_print_terminates_partial.
-(* the model's fuel (2) is enough: more fuel never changes the answer *)
-Theorem osdev_while_fuel_irrelevant :
-  forall longn st k, osdev_while (2 + k) longn st = osdev_while 2 longn st.
-Proof. exact osdev_while_fuel. Qed.
-Print Assumptions osdev_while_fuel_irrelevant.
+Print Assumptions osdev_print_terminates_before_fix_refuted.
 (* END osdev-loop *)
